@@ -697,6 +697,15 @@ func (e *Engine) registerIntrinsics() {
 		return Tuple{Ptr(slot), Iface{}}
 	}
 	in["(*os.File).Close"] = func(r *Run, fr *frame, a []Value) Value { return Iface{} }
+	in["os.OpenFile"] = func(r *Run, fr *frame, a []Value) Value {
+		if flags := r.concreteInt(a[1], "OpenFile flags"); flags&0x40 == 0 {
+			panic(unsupported("os.OpenFile without O_CREATE (flags %#x)", flags))
+		}
+		return in["os.Create"](r, fr, a[:1])
+	}
+	in["os.IsExist"] = func(r *Run, fr *frame, a []Value) Value {
+		return r.equal(nil, a[0], *r.global(r.eng.prog.ImportedPackage("io/fs").Var("ErrExist")))
+	}
 	for _, hp := range harnessPkgs {
 		in[hp+"verifFSKinds"] = func(r *Run, fr *frame, a []Value) Value {
 			return SliceV{Data: append([]Value{}, r.fsKinds...)}
